@@ -3,6 +3,7 @@
 package c16
 
 import (
+	"errors"
 	"fmt"
 	"sort"
 
@@ -46,6 +47,9 @@ func (s *recSession) SetId(i uint32)  { s.id = i }
 func (s *recSession) Close()          { s.closed = true }
 func (s *recSession) IsClosed() bool  { return s.closed }
 func (s *recSession) Push(route string, v interface{}) error {
+	if s.closed { // what the real ClientSession.Push answers once its status is Closed
+		return errors.New("closed")
+	}
 	*s.log = append(*s.log, int64(s.id))
 	return nil
 }
@@ -151,8 +155,8 @@ func Exec(ops []hx.T) (obs []any, nontrivial bool) {
 			}
 			obs = append(obs, hx.C("BPush", l))
 		case "OFront":
-			live, ids := o.Ints(0), o.Ints(1)
-			obs = append(obs, hx.C("BDeliver", frontDeliver(live, ids)))
+			live, closing, ids := o.Ints(0), o.Ints(1), o.Ints(2)
+			obs = append(obs, hx.C("BDeliver", frontDeliver(live, closing, ids)))
 			if len(live) > 0 && len(ids) > 0 {
 				nontrivial = true
 			}
@@ -167,13 +171,23 @@ func Exec(ops []hx.T) (obs []any, nontrivial bool) {
 // allocator decides their connection ids), removes those whose token is not in `live`,
 // and pushes.  Tokens are renamed injectively: token t = the t-th added session; tokens
 // beyond that map to ids nobody ever had.
-func frontDeliver(live, ids []int64) []int64 {
+//
+// Tokens in `closing` stay registered but are closed at network level (the window between
+// ClientSession.Close() and the posted RemoveSession): Push on them fails.
+func frontDeliver(live, closing, ids []int64) []int64 {
 	cs := impls.NewClientSessions("front-x")
 	var log []int64
 	max := int64(0)
 	isLive := map[int64]bool{}
+	isClosing := map[int64]bool{}
 	for _, v := range live {
 		isLive[v] = true
+		if v > max {
+			max = v
+		}
+	}
+	for _, v := range closing {
+		isClosing[v] = true
 		if v > max {
 			max = v
 		}
@@ -189,7 +203,9 @@ func frontDeliver(live, ids []int64) []int64 {
 		idToTok[int64(s.id)] = t
 	}
 	for t, s := range sessions {
-		if !isLive[int64(t+1)] {
+		if isClosing[int64(t+1)] {
+			s.Close()
+		} else if !isLive[int64(t+1)] {
 			cs.RemoveSession(s)
 		}
 	}
@@ -299,7 +315,18 @@ func gen(cfg *hx.Config, maxLen int) ([]hx.T, []string) {
 				ids = append(ids, 1+r.Int63n(int64(nl)+4))
 			}
 			tags["front"] = true
-			ops = append(ops, hx.C("OFront", live, ids))
+			closing := []int64{}
+			if r.Intn(2) == 0 {
+				for i := int64(1); i <= int64(nl)+3; i++ {
+					if r.Intn(4) == 0 {
+						closing = append(closing, i)
+					}
+				}
+				if len(closing) > 0 {
+					tags["front-closing"] = true
+				}
+			}
+			ops = append(ops, hx.C("OFront", live, closing, ids))
 		}
 	}
 	var tl []string
